@@ -9,7 +9,7 @@ their data structure never fail a check and never run out of fuel, for ALL input
   * the int64 intermediates of the translated scalar kernels stay in range for |coordinates| <= 2^29
     (proofs/NoOverflow.v over coq/gen, regenerated from the source on every run);
   * re-exports of the termination / in-bounds theorems of C09 (RectClipLines), C17 (export arrays), C20 (path
-    utilities), C07 (offset index schedules).
+    utilities), C07 (offset index schedules), C04 (owner-chain loops), C19 (detail::Minkowski indexing).
 The two C10 models are tied to the code by exact output correspondence under ASan+UBSan:
   tie 1  harness/cx_isect.cpp    real BuildIntersectList / ProcessIntersectList on synthetic AELs (private access)
          vs bin/oracle_inversions (emission order, SEL order, processing order, final AEL -- exact);
@@ -38,7 +38,8 @@ META = dict(
     text='Coq theorems, for all inputs: the merge sort of BuildIntersectList records exactly the inversions and '
          "ProcessIntersectList's unbounded forward scan always finds an adjacent node inside the list; AddPaths_ never leaves "
          'its Vertex array; int64 intermediates of the scalar kernels stay in range up to 2^29; plus the in-bounds/termination '
-         'theorems of RectClipLines, the export arrays, the path utilities and the offset index schedules. Everything else of '
+         'theorems of RectClipLines, the export arrays, the path utilities, the offset index schedules, the owner-chain loops and '
+         'detail::Minkowski. Everything else of '
          'the property is runtime behaviour and is VALIDATED, not proved: every public entry point under ASan+UBSan+LSan '
          '(with and without USINGZ) with CPU/RSS watchdogs on a malformed/extreme input stream, and allocation-failure '
          'injection at the k-th allocation.',
@@ -643,7 +644,7 @@ def run(ctx):
     # ---- 2. build
     exes, errs = build_all(ctx)
     found = {}
-    scale = (2.0 if quick else 20.0) * (1.0 if pr['ok'] and not errs else 1.5)      # a broken proof / tie widens the search
+    scale = (2.0 if quick else 40.0) * (1.0 if pr['ok'] and not errs else 1.5)      # a broken proof / tie widens the search
     # ---- 3. the detectors detect
     if ('fuzz', 'asan') in exes:
         selftest(ctx, exes[('fuzz', 'asan')], exes.get(('nf', 'asan')))
